@@ -85,7 +85,7 @@ def c11(pid, tier, seed):
             # resets its custom keys saw must be the same
             ("hidden_first", "MC_Placeholders", dict(D=2 if q else 3, NT=3, Lens={"none", "3"}, Poss={"1"}, Hid={True}), "bfs"),
             ("deep", "MC_Placeholders", dict(D=6, NT=3, Lens=lens, Poss=poss, Hid={False, True}), ("sim", 300 if q else 4000, 9))]
-    return props.generic_check(pid, tier, seed, gens, "place", "Trace_Placeholders",
+    res = props.generic_check(pid, tier, seed, gens, "place", "Trace_Placeholders",
                                "a bar created with length in {unknown, 0, 1, 3, MAX} and position in {0, 1, 5, MAX} is driven by D operations (tick, n-1 / n ticks, inc, set_position, set_length, "
                                "unset_length, set_message, set_prefix, finish, finish_with_message, abandon, reset, clock advances of 1 ms .. 3 days) under the frozen virtual clock; then each of 27 "
                                "documented keys is rendered as [{key}] by force_draw and compared with Placeholders!Term(key) over the formatter values of the public getters logged at the same "
@@ -97,6 +97,17 @@ def c11(pid, tier, seed):
                                 "and is covered through get_tick_str(u64::MAX) only",
                                 "{bar} and {wide_bar} are judged by C13, widths and truncation by C12"],
                                shards=6)
+    # schedule clause: a frame painted while another thread increments shows one value of the bar for {pos} and {len}
+    import props_sync
+    sc = props_sync.c11_schedules(pid, tier, seed)
+    cov = res["coverage"]
+    cov["states"] += sc["states"]
+    cov["transitions"] += sc["transitions"]
+    cov["traces_validated_against_impl"] += sc["runs"]
+    cov["records_validated"] += sc["records"]
+    cov["schedule_clause"] = {"runs": sc["runs"], "clause_counts": sc["stats"], "sample": sc["sample"]}
+    res["failures"] += sc["fails"]
+    return res
 
 
 PROPS = {"C12": c12, "C13": c13, "C11": c11}
